@@ -233,6 +233,11 @@ def plan_C18(seed, run, engine, tier="quick"):
     if cls0 == "GeneralizedLinearEstimator" and rng.random() < 0.3:
         # a solver that carries a user-supplied array of its own (PDCD_WS.dual_init)
         args0, ds0 = gen_gle(rng, cls0, PDCD_FAMILIES)
+    reuse_solver = bool(rng.random() < 0.12)
+    if reuse_solver:
+        # histories in which the estimator's own solver object is used for a path first
+        cls0 = "GeneralizedLinearEstimator"
+        args0, ds0 = gen_gle(rng, cls0, [e for e in GLE_FAMILIES if e[0] in ("AndersonCD", "MultiTaskBCD")])
     if "warm_start" in args0:
         args0["warm_start"] = False
     if "knobs" in args0:
@@ -286,6 +291,22 @@ def plan_C18(seed, run, engine, tier="quick"):
                             labels=_labels(rng, kind)))
     ops.append(dict(op="new", id="e0", cls=cls0, args=args0))
     labels = _labels(rng, ds0["kind"])
+    if cls0 == "GeneralizedLinearEstimator" and args0["family"]["solver"] in ("AndersonCD", "MultiTaskBCD") \
+            and "alpha" in args0["family"]["pargs"] and (reuse_solver or rng.random() < 0.5):
+        # the estimator's own solver object sweeps a path first (on the same data or on other
+        # data with the same number of features): state kept on the solver object leaks into
+        # the judged fit (round 3, DESIGN section 9)
+        kind = ds0["kind"]
+        Xs = np.array(ds0["X"])
+        if rng.random() < 0.5:
+            T = np.array(ds0["y"]).shape[1] if kind == "multi" else None
+            datasets.append(_dataset(rng, kind, p=Xs.shape[1], T=T))
+            di = len(datasets) - 1
+        else:
+            di = 0
+        a0 = args0["family"]["pargs"]["alpha"]
+        ops.append(dict(op="solver_path", id="e0", data=di, container=choice(rng, ["F", "csc"]),
+                        alphas=[float(a0 * f) for f in (3.0, 1.0, 0.3, 0.05, 0.005)]))
     if rng.random() < 0.5:
         # the same object fitted before, on other data or on the same
         if rng.random() < 0.5 and cls0 not in ("GeneralizedLinearEstimator", "IterativeReweightedL1"):
@@ -307,6 +328,12 @@ def plan_C10(seed, run, engine, tier="quick"):
     rng = G.rng_for(seed, "C10", run)
     cls = _pick_cls(rng, [c for c in EST_ENTRIES if c not in ("IterativeReweightedL1",)])
     args, ds = _new_model(rng, cls, ample=True)
+    if cls == "MCPRegression" and rng.random() < 0.7:
+        # non-convex replicas: larger, correlated designs and weak regularisation, where several
+        # stationary points exist and the one reached depends on the order of the updates
+        ds = _dataset(rng, "reg", n=int(rng.integers(10, 30)), p=int(rng.integers(8, 24)))
+        args = gen_estimator(rng, cls, ds, True, frac=choice(rng, [0.03, 0.1, 0.2]))
+        args["tol"] = float(min(args["tol"], 1e-6 * args["alpha"]))
     if "warm_start" in args:
         args["warm_start"] = False
     a = "F"
